@@ -77,8 +77,9 @@ func (ch *ConnectionHandler) acceptStream() {
 			log.Debugf("Stream closed, existing loop.")
 			return
 		} else if err != nil {
-			log.WithError(err).Errorf("Error accepting stream: %v", err)
-			continue
+			// Every error AcceptStream returns (read error, protocol error, closed session) is final for the session
+			log.WithError(err).Errorf("Error accepting stream, session ended: %v", err)
+			return
 		}
 		stream = streams.NewNamedConnection(stream, stream.RemoteAddr().String())
 		log.Debugf("[Server] New logical connection accepted: %v", stream)
